@@ -8,6 +8,7 @@ caller's arguments (vf ref_client logic below).
 import datetime
 import io
 import itertools
+import logging
 import time
 import warnings
 
@@ -58,7 +59,36 @@ CONFIG_SPACE = [
     ("app", [None, ("MYAPP", "0001")]),
     ("language", [None, "FRA"]),
     ("creds", ["plain", "printable"]),
+    # the process's logging configuration (ofxget -vv, or a host application's): what is composed must not depend on it
+    ("loglevel", [None, "DEBUG"]),
 ]
+
+
+class _Sink(logging.Handler):
+    """formats every record (so lazily formatted arguments are evaluated) and discards it"""
+
+    def emit(self, record):
+        self.format(record)
+
+
+class verbose_logging:
+    def __init__(self, cfg):
+        self.on = bool(cfg.get("loglevel"))
+
+    def __enter__(self):
+        if self.on:
+            self.lg = logging.getLogger("ofxtools")
+            self.old = self.lg.level
+            self.h = _Sink()
+            self.lg.addHandler(self.h)
+            self.lg.setLevel(logging.DEBUG)
+            self.prop, self.lg.propagate = self.lg.propagate, False
+
+    def __exit__(self, *a):
+        if self.on:
+            self.lg.setLevel(self.old)
+            self.lg.removeHandler(self.h)
+            self.lg.propagate = self.prop
 
 
 def configs(k):
@@ -352,6 +382,11 @@ def now_ms():
 
 
 def run_config(t, cfg, seed, seqs, extras):
+    with verbose_logging(cfg):
+        return _run_config(t, cfg, seed, seqs, extras)
+
+
+def _run_config(t, cfg, seed, seqs, extras):
     version = cfg["version"]
     case0 = {"cfg": cfg}
     if version >= 200 and not cfg["close"]:
@@ -574,7 +609,7 @@ def run(ctx):
         "evaluations": tally.counts.get("evaluations", 0),
         "distinct_nontrivial": tally.counts.get("compositions", 0),
         "rule": ("client configurations within <=2 deviations of the default" if ctx.quick else "full product of client configurations") +
-        " over wire form (v2/v1 x pretty x end tags, one dimension) x version within the major version x FI {none, ORG, ORG+FID with markup chars} x CLIENTUID x app id/version x language x credentials {plain, all 95 printable "
+        " over wire form (v2/v1 x pretty x end tags, one dimension) x version within the major version x FI {none, ORG, ORG+FID with markup chars} x CLIENTUID x app id/version x language x logging at DEBUG x credentials {plain, all 95 printable "
         "ASCII characters} x request lists: all 156 sequences of length 0..3 over the five statement request kinds (account ids with & < > quotes, 5 date options incl. -5:30, +14:00, "
         "-0:30 and sub-ms, flags) + every single-request flag/date variant (400 per kind, spread over configurations) + account-info, profile and 4 tax requests; all dryrun; "
         "each composition read by the strict reference reader and by the library, both compared with the expected request; + call histories: on one client per wire form every sequence of <= "
